@@ -560,7 +560,8 @@ __CPROVER_ensures(OVALID(RV) && ALIGNED_second(RV) && UNIT_second(RV) == UNIT_se
 __CPROVER_assigns();
 fields ct_second_minus(fields a, diff_t n)
 __CPROVER_requires(OVALID(a) && ALIGNED_second(a) && REPR_second(UNIT_second(a) - n))
-__CPROVER_ensures(OVALID(RV) && ALIGNED_second(RV) && UNIT_second(RV) == UNIT_second(a) - n)
+__CPROVER_ensures(OVALID(RV) && ALIGNED_second(RV))
+__CPROVER_ensures(UNIT_second(RV) == UNIT_second(a) - n)
 __CPROVER_assigns();
 diff_t ct_second_diff(fields lhs, fields rhs)
 __CPROVER_requires(OVALID(lhs) && ALIGNED_second(lhs) && OVALID(rhs) && ALIGNED_second(rhs) && FITS64(UNIT_second(lhs) - UNIT_second(rhs)))
